@@ -108,6 +108,22 @@ func neighbourTables(string) [][]ref.Op {
 	return out
 }
 
+// seqTables: the 13-symbol family is mostly about punctuation; quick takes every third table
+// (27, all nine fixity pairs at three power pairs), thorough all 81.
+func seqTables(tier string) [][]ref.Op {
+	all := abTables("quick")
+	if tier == "thorough" {
+		return all
+	}
+	var out [][]ref.Op
+	for i, t := range all {
+		if i%3 == 0 {
+			out = append(out, t)
+		}
+	}
+	return out
+}
+
 // parenTables: parentheses interact with associativity only where an operator is non-associative
 // (quick: the 45 tables with at least one non-associative symbol; thorough: all 81).
 func parenTables(tier string) [][]ref.Op {
@@ -135,7 +151,7 @@ func c08Families() []c08Family {
 		return 4
 	}
 	return []c08Family{
-		{"seq", []string{"a", "+", "*", "~", "!", "(", ")", "?", ":", ".", "[", "]", ","}, abTables, 2, func(string) int { return 3 }, " "},
+		{"seq", []string{"a", "+", "*", "~", "!", "(", ")", "?", ":", ".", "[", "]", ","}, seqTables, 2, func(string) int { return 3 }, " "},
 		{"ops", []string{"a", "+", "*", "~", "!"}, abTables, 3, lenOps, " "},
 		{"tern", []string{"a", "+", "*", "?", ":"}, abTables, 3, lenOps, " "},
 		{"paren", []string{"a", "+", "*", "(", ")"}, parenTables, 3, lenOps, " "},
@@ -160,7 +176,18 @@ func c08Families() []c08Family {
 }
 
 func (c08) Generate(tier string, yield func(*engine.Case) bool) {
-	for fi, f := range c08Families() {
+	// the small families (few tables) first: a deadline on a loaded machine must not cut them
+	fams := c08Families()
+	var order []int
+	for pass := 0; pass < 2; pass++ {
+		for fi, f := range fams {
+			if (len(f.tables(tier)) <= 3) == (pass == 0) {
+				order = append(order, fi)
+			}
+		}
+	}
+	for _, fi := range order {
+		f := fams[fi]
 		tabs := f.tables(tier)
 		for ti := range tabs {
 			// short sequences (shorter than the fixed prefix)
